@@ -13,6 +13,7 @@ import Gengo.Model.Pipeline
 import Gengo.Model.Dumper
 import Gengo.Gen.InflectTables
 import Gengo.Gen.StdList
+import Gengo.Gen.Consts
 import Gengo.Model.DeepCopy
 import Gengo.Model.RuntimeDoc
 import Gengo.Model.TypeLit
@@ -481,25 +482,26 @@ def handle (fx : String → Bool) (line : String) : String :=
     (match Template.render tmplEnv fxB (unhex h) with
      | none => "panic"
      | some o => "ok " ++ hex o)
-  | "tags" :: hs => showTags (Tags.extract ['+', '@'] (hs.map unhex))
+  | "tags" :: markers :: hs => showTags (Tags.extract (if markers == "-" then Gengo.Gen.defaultMarkers else unhex markers) (hs.map unhex))
   | ["sprintf", h] =>
     (match Sprintf.sprintf fxB (unhex h) [⟨some ['1'], some ['1']⟩, ⟨some ['T'], some ['T']⟩] with
      | none => "panic"
      | some o => "ok " ++ hex o)
-  | "layout" :: _ :: toks =>
-    let fx := fx1
-    -- tokens: b | c<k> | d<h><0|1>
-    let rows : List Layout.Row := (toks.zipIdx).map fun (tok, i) =>
-      match tok.toList with
-      | ['b'] => Layout.Row.blank
-      | 'c' :: k :: _ => Layout.Row.comment ((List.range (k.toNat - 48)).map fun j => s!"c{i}_{j}".toList)
-      | 'd' :: h :: t :: _ => Layout.Row.decl (h.toNat - 48) (if t == '1' then some s!"t{i}".toList else none)
-      | _ => Layout.Row.blank
-    let idx := Layout.build (fx == "1") rows 3 ⟨[], []⟩
-    let decls := Layout.truth rows 3 none
+  | "layout" :: toks =>
+    -- rows: `b` | `c <k> <line>^k` | `d <h> <-|trail>`
+    let rec rows : Nat → List String → List Layout.Row
+      | 0, _ => []
+      | _, [] => []
+      | fuel + 1, "b" :: r => Layout.Row.blank :: rows fuel r
+      | fuel + 1, "c" :: k :: r => Layout.Row.comment ((r.take k.toNat!).map unhex) :: rows fuel (r.drop k.toNat!)
+      | fuel + 1, "d" :: h :: t :: r => Layout.Row.decl h.toNat! (if t == "-" then none else some (unhex t)) :: rows fuel r
+      | _, _ => []
+    let rs := rows (toks.length + 1) toks
+    let idx := Layout.build (fx "F11") rs 1 ⟨[], []⟩
+    let decls := Layout.truth rs 1 none
     String.intercalate " " (decls.map fun e =>
-      "doc=" ++ String.intercalate "|" ((Layout.docAt idx e.1).map String.ofList) ++
-      ";comment=" ++ String.intercalate "|" ((Layout.commentAt idx e.1).map String.ofList))
+      let d := Layout.docOf idx e.1
+      "doc=" ++ showTags d ++ ";comment=" ++ String.intercalate "," ((Layout.commentOf idx e.1).map hex))
   | ["resolve", _, f, prog] =>
     let fx := fx1
     let parseTy (c : Char) : Resolver.Ty :=
